@@ -1,12 +1,13 @@
 //! Registry of property checks.
 use crate::engine::PropertyDef;
 
+pub mod c04;
 pub mod c09;
 pub mod c27;
 pub mod c29;
 
 pub fn all() -> Vec<PropertyDef> {
-    vec![c09::def(), c27::def(), c29::def()]
+    vec![c04::def(), c09::def(), c27::def(), c29::def()]
 }
 
 pub fn worker_main(_args: &[String]) {
